@@ -1,3 +1,4 @@
+import errno
 import importlib.util
 import os
 import stat
@@ -77,9 +78,14 @@ class BaseFiles(Generic[Interface]):
         try:
             stat_result = os.stat(path)
             return stat_result, stat.S_ISREG(stat_result.st_mode)
-        except (FileNotFoundError, NotADirectoryError):
-            # /file.txt/x: a path below a regular file does not exist either
+        except (FileNotFoundError, NotADirectoryError, ValueError):
+            # /file.txt/x: a path below a regular file does not exist either;
+            # ValueError: a NUL byte in the request path
             return None, False
+        except OSError as exc:
+            if exc.errno == errno.ENAMETOOLONG:
+                return None, False
+            raise
 
     def if_none_match(self, etag: str, if_none_match: str) -> bool:
         if not if_none_match:
